@@ -376,7 +376,7 @@ class E4Session(SessionBase):
         env = dict(os.environ, PYTHONHASHSEED=str(hashseed), PYTHONPATH=f'{REPO}:{VERIF}')
         p = subprocess.run([sys.executable, '-m', 'gnpysim.child'], input=json.dumps({'world': self.world,
                                                                                       'sim': self.sim_doc}),
-                           capture_output=True, text=True, env=env, timeout=300, cwd=str(VERIF))
+                           capture_output=True, text=True, env=env, timeout=1500, cwd=str(VERIF))
         if p.returncode != 0:
             raise HarnessError(f'child failed: {p.stderr[-800:]}')
         out = json.loads(p.stdout)
